@@ -19,6 +19,8 @@ psutil_disk_partitions(PyObject *self, PyObject *args) {
     char *mtab_path;
     PyObject *py_dev = NULL;
     PyObject *py_mountp = NULL;
+    PyObject *py_type = NULL;
+    PyObject *py_opts = NULL;
     PyObject *py_tuple = NULL;
     PyObject *py_retlist = PyList_New(0);
 
@@ -48,17 +50,27 @@ psutil_disk_partitions(PyObject *self, PyObject *args) {
         py_mountp = PyUnicode_DecodeFSDefault(entry->mnt_dir);
         if (! py_mountp)
             goto error;
-        py_tuple = Py_BuildValue("(OOss)",
+        // Like device and mount point, type and options are arbitrary
+        // bytes (e.g. overlay "lowerdir=" paths): do not assume UTF-8.
+        py_type = PyUnicode_DecodeFSDefault(entry->mnt_type);
+        if (! py_type)
+            goto error;
+        py_opts = PyUnicode_DecodeFSDefault(entry->mnt_opts);
+        if (! py_opts)
+            goto error;
+        py_tuple = Py_BuildValue("(OOOO)",
                                  py_dev,             // device
                                  py_mountp,          // mount point
-                                 entry->mnt_type,    // fs type
-                                 entry->mnt_opts);   // options
+                                 py_type,            // fs type
+                                 py_opts);           // options
         if (! py_tuple)
             goto error;
         if (PyList_Append(py_retlist, py_tuple))
             goto error;
         Py_CLEAR(py_dev);
         Py_CLEAR(py_mountp);
+        Py_CLEAR(py_type);
+        Py_CLEAR(py_opts);
         Py_CLEAR(py_tuple);
     }
     endmntent(file);
@@ -69,6 +81,8 @@ error:
         endmntent(file);
     Py_XDECREF(py_dev);
     Py_XDECREF(py_mountp);
+    Py_XDECREF(py_type);
+    Py_XDECREF(py_opts);
     Py_XDECREF(py_tuple);
     Py_DECREF(py_retlist);
     return NULL;
